@@ -78,8 +78,10 @@ impl ExtendedPrivateKey {
         let mut chain_code = vec![0; 32];
         cursor.read_exact(&mut chain_code)?;
 
-        // Skip appended 0 byte on private key
-        cursor.set_position(cursor.position() + 1);
+        // The private key is written behind a zero byte
+        if cursor.read_u8()? != 0 {
+            return Err(BSVErrors::GenericError("Not an extended private key: the key is not preceded by a zero byte".into()));
+        }
 
         let mut private_key_bytes = vec![0; 32];
         cursor.read_exact(&mut private_key_bytes)?;
